@@ -241,12 +241,16 @@ Section Prefixes.
     | Plain m => m
     end.
 
-  (* trimErrorCodePrefix(err, httpStatus, errorCode) *)
+  (* trimErrorCodePrefix(err, httpStatus, errorCode): the status prefix is trimmed, then a
+     message that is exactly the code text (WireError.Error of an empty message) becomes
+     empty, else the code prefix is trimmed *)
   Definition trim_error_code_prefix (e : gerr) (status : Z) (code : bytes) : bytes :=
     let msg := text e in
     let msg := if Z.eqb status 0 then msg else trim_prefix (sprefix status ++ colon_sp) msg in
-    let msg := match code with [] => msg | _ => trim_prefix (cprefix code ++ colon_sp) msg end in
-    msg.
+    match code with
+    | [] => msg
+    | _ => if beqb msg (cprefix code) then [] else trim_prefix (cprefix code ++ colon_sp) msg
+    end.
 
   Definition unknown_code : bytes := s "UNKNOWN".
 
